@@ -2,7 +2,7 @@
 import io
 import struct
 
-from vf import usage, streams, textpool
+from vf import core, usage, streams, textpool
 from vf.enc import elf as W
 from vf.choose import RndChooser, composite_from
 
@@ -212,61 +212,93 @@ def run_case(ctx, case):
         if not code_ok(e['st_shndx'], s['shndx'], T_SHN, set(MUST_SHNDX)):
             ctx.fail('%s|st_shndx' % where, 'encoded %#x got %r' % (s['shndx'], e['st_shndx']), case)
 
-    # sequential and random access
-    try:
-        lst = list(tab.iter_symbols())
-        if len(lst) != n:
-            ctx.fail('symtab|iter|count', 'encoded %d yielded %d' % (n, len(lst)), case)
-        for i, (g, s) in enumerate(zip(lst, syms)):
-            check_sym('symtab|iter', g, s)
-        # the same walk step by step, with the stream moved, a nested walk started and a lookup made between two steps
-        if len(lst) == n and n <= 400:
-            stepped = usage.stepwise(tab.iter_symbols, usage.disturber(ef.stream, tab.iter_symbols, (lambda: tab.get_symbol_by_name('main'), tab.num_symbols)))
-            if [(g.name, dict(g.entry['st_info']), g.entry['st_value'], g.entry['st_shndx']) for g in stepped] != [(g.name, dict(g.entry['st_info']), g.entry['st_value'], g.entry['st_shndx']) for g in lst]:
-                ctx.fail('symtab|iter|interleaved-with-other-stream-use', 'a plain loop yields %d symbols; a step-by-step walk with other stream users in between %d (or different ones)' % (len(lst), len(stepped)), case)
-            if n >= 2:
-                ctx.count('symtab.stepwise')
-    except Exception as e:  # noqa
-        ctx.fail_exc('symtab|iter', e, case)
+    # How a fresh table object is first used is a dimension of its own (the name map and every other lazily built state must not
+    # depend on it): 0 = complete walk first; 1 = a walk abandoned after k items (generator kept alive), then the name lookups, then the
+    # complete walk; 2 = name lookups first; 3 = name lookups from inside the loop body of the very first walk.
+    first_use = core.digest(data)[0] % 4
+    ctx.count('first-use.%d' % first_use)
+    keep_alive = []
+
+    def sequential():
+        # sequential and random access
+        try:
+            lst = list(tab.iter_symbols())
+            if len(lst) != n:
+                ctx.fail('symtab|iter|count', 'encoded %d yielded %d' % (n, len(lst)), case)
+            for i, (g, s) in enumerate(zip(lst, syms)):
+                check_sym('symtab|iter', g, s)
+            # the same walk step by step, with the stream moved, a nested walk started and a lookup made between two steps
+            if len(lst) == n and n <= 400:
+                stepped = usage.stepwise(tab.iter_symbols, usage.disturber(ef.stream, tab.iter_symbols, (lambda: tab.get_symbol_by_name('main'), tab.num_symbols)))
+                if [(g.name, dict(g.entry['st_info']), g.entry['st_value'], g.entry['st_shndx']) for g in stepped] != [(g.name, dict(g.entry['st_info']), g.entry['st_value'], g.entry['st_shndx']) for g in lst]:
+                    ctx.fail('symtab|iter|interleaved-with-other-stream-use', 'a plain loop yields %d symbols; a step-by-step walk with other stream users in between %d (or different ones)' % (len(lst), len(stepped)), case)
+                if n >= 2:
+                    ctx.count('symtab.stepwise')
+        except Exception as e:  # noqa
+            ctx.fail_exc('symtab|iter', e, case)
+
+    bynames = {}
+    for i, s in enumerate(syms):
+        bynames.setdefault(s['name'], []).append(i)
+    queries = case['queries']
+
+    def by_name():
+        # name map
+        for q in queries:
+            try:
+                got = tab.get_symbol_by_name(q)
+            except Exception as e:  # noqa
+                ctx.fail_exc('symtab|by_name', e, case)
+                continue
+            exp = bynames.get(q)
+            if exp is None:
+                if got is not None:
+                    ctx.fail('symtab|by_name|absent', 'query %r returned %d symbols' % (q, len(got)), case)
+            elif got is None:
+                ctx.fail('symtab|by_name|missing', 'query %r present at %r' % (q, exp), case)
+            elif len(got) != len(exp):
+                ctx.fail('symtab|by_name|count', 'query %r: expected indices %r, got %d symbols' % (q, exp, len(got)), case)
+            else:
+                for g, i in zip(got, exp):
+                    check_sym('symtab|by_name', g, syms[i])
+                # the returned list belongs to the caller: whatever they do with it, the next lookup answers from the table
+                del got[len(got) // 2:]
+                got.append(None)
+                try:
+                    again = tab.get_symbol_by_name(q)
+                    if again is None or len(again) != len(exp) or any(g is None or g.name != q for g in again):
+                        ctx.fail('symtab|by_name|depends-on-caller-use-of-earlier-result', 'query %r: %d symbols bear the name, the second lookup returned %s' % (
+                            q, len(exp), 'None' if again is None else '%d items' % len(again)), case)
+                except Exception as e:  # noqa
+                    ctx.fail_exc('symtab|by_name|second-lookup', e, case)
+
+    if first_use == 1 and n >= 2:
+        try:
+            it = iter(tab.iter_symbols())
+            for _ in range(1 + core.digest(data)[1] % (n - 1)):
+                next(it)
+            keep_alive.append(it)
+        except Exception as e:  # noqa
+            ctx.fail_exc('symtab|iter|abandoned-first-walk', e, case)
+    if first_use == 3:
+        try:
+            for k, g in enumerate(tab.iter_symbols()):
+                if k in (0, n // 2):
+                    by_name()
+        except Exception as e:  # noqa
+            ctx.fail_exc('symtab|iter|lookups-inside-first-walk', e, case)
+    if first_use in (1, 2):
+        by_name()
+        sequential()
+    else:
+        sequential()
+        by_name()
     for i in case.get('probe', []):
         if i < n:
             try:
                 check_sym('symtab|get_symbol', tab.get_symbol(i), syms[i])
             except Exception as e:  # noqa
                 ctx.fail_exc('symtab|get_symbol', e, case)
-
-    # name map
-    bynames = {}
-    for i, s in enumerate(syms):
-        bynames.setdefault(s['name'], []).append(i)
-    queries = case['queries']
-    for q in queries:
-        try:
-            got = tab.get_symbol_by_name(q)
-        except Exception as e:  # noqa
-            ctx.fail_exc('symtab|by_name', e, case)
-            continue
-        exp = bynames.get(q)
-        if exp is None:
-            if got is not None:
-                ctx.fail('symtab|by_name|absent', 'query %r returned %d symbols' % (q, len(got)), case)
-        elif got is None:
-            ctx.fail('symtab|by_name|missing', 'query %r present at %r' % (q, exp), case)
-        elif len(got) != len(exp):
-            ctx.fail('symtab|by_name|count', 'query %r: expected indices %r, got %d symbols' % (q, exp, len(got)), case)
-        else:
-            for g, i in zip(got, exp):
-                check_sym('symtab|by_name', g, syms[i])
-            # the returned list belongs to the caller: whatever they do with it, the next lookup answers from the table
-            del got[len(got) // 2:]
-            got.append(None)
-            try:
-                again = tab.get_symbol_by_name(q)
-                if again is None or len(again) != len(exp) or any(g is None or g.name != q for g in again):
-                    ctx.fail('symtab|by_name|depends-on-caller-use-of-earlier-result', 'query %r: %d symbols bear the name, the second lookup returned %s' % (
-                        q, len(exp), 'None' if again is None else '%d items' % len(again)), case)
-            except Exception as e:  # noqa
-                ctx.fail_exc('symtab|by_name|second-lookup', e, case)
 
     nt = False
     # XINDEX companion
